@@ -158,7 +158,7 @@ def ob_a(d: int, e: int, c0: bool, c1: bool, c2: bool, c3: bool, c4: bool, c5: b
 # ------------------------------------------------------------------ C13.b explicit default == omitted
 KEYWORDS = ('spine_types', 'include', 'exclude', 'from_measure', 'to_measure', 'encoding', 'instruments', 'show_measure_numbers', 'spine_ids')
 OTHERS = ({}, {'encoding': kp.Encoding.eKern}, {'include': [TC.CORE, TC.STRUCTURAL]}, {'spine_ids': [0]}, {'spine_types': ['**kern']},
-          {'exclude': {TC.DECORATION}}, {'encoding': kp.Encoding.agnosticKern})
+          {'exclude': {TC.DECORATION}}, {'encoding': kp.Encoding.agnosticKern}, {'exclude': {TC.COMMENTS, TC.NOTE}}, {'exclude': [TC.SIGNATURES]})
 
 
 def _explicit_default(kw, doc, variant):
@@ -196,6 +196,22 @@ def _b_body(di, k, variant, oi):
     check(got == ref, f'dumps(doc, {base}, {kw}={val!r}) differs from omitting {kw}: {got!r} vs {ref!r}')
     # and once more in the opposite order of calls (no call may leave anything behind)
     check(kp.dumps(doc, **base) == ref, f'omitting {kw} after passing it explicitly gives a different text')
+    # the same option sets through ONE Exporter object (kp.Exporter is public): every export answers like a fresh one
+    from kernpy.core.generic import Generic
+
+    def opts(d):
+        d = dict(d)
+        if 'encoding' in d:
+            d['kern_type'] = d.pop('encoding')
+        return Generic.parse_options_to_ExportOptions(**d)
+    e = Exporter()
+    first = e.export_string(doc, opts({'include': [TC.HEADER]}))
+    second = e.export_string(doc, opts(base))
+    third = e.export_string(doc, opts({**base, kw: val}))
+    check(second == ref and third == ref, f'one Exporter object used for include=[HEADER], then {base}, then {kw}={val!r}: {second!r} / {third!r}, fresh exports give {ref!r}')
+    e2 = Exporter()
+    e2.export_string(doc, opts({}))
+    check(e2.export_string(doc, opts(base)) == ref, f'one Exporter object used for the default export and then {base} differs from a fresh export')
     return True
 
 
@@ -259,8 +275,8 @@ OBLIGATIONS = [
                'thorough': 'same'}),
     Ob(id='C13.b', fn=ob_b, title='explicit default (None or the documented value) == omitted, alone and next to one other option, in both call orders',
        shard_of=lambda d, k, variant, other: k, shards={'quick': 9, 'thorough': 9}, budget_s={'quick': 120, 'thorough': 600},
-       witnesses=[{'d': 0, 'k': 1, 'variant': 2, 'other': 1}], min_confirmed=200, enumerated='document, keyword (9), default spelling (3), other option (7)',
-       bounds={'quick': '2 x 9 x 3 x 7', 'thorough': 'same'}),
+       witnesses=[{'d': 0, 'k': 1, 'variant': 2, 'other': 1}], min_confirmed=200, enumerated='document, keyword (9), default spelling (3), other option (9)',
+       bounds={'quick': '2 x 9 x 3 x 9', 'thorough': 'same'}),
     Ob(id='C13.c', fn=ob_c, title='the text exported for a cell does not depend on its neighbours (per encoding and selection)',
        shard_of=lambda a, b, pos, e, s: a + 6 * e, shards={'quick': 12, 'thorough': 12}, budget_s={'quick': 150, 'thorough': 900},
        witnesses=[{'a': 0, 'b': 2, 'pos': 1, 'e': 1, 's': 1}], min_confirmed=1500, enumerated='cell A, neighbour B (6 x 6), position of B (4), encoding (6), exclusion (4)',
